@@ -18,6 +18,8 @@ def plan(tier, ctx):
     j = []
     j += fvm.config('C14', 'hp_scan_patterns', 'hp.c', 1, 8, 'sc', srcs=src, defines=['MODE=1'], spec={'spin': 1, 'site_types': st}, bounds='sequential scan, arbitrary 64-bit slot contents', timeout=900)
     if tier == 'thorough':
+        j += fvm.config('C14', 'hp_scan_vs_register_k1', 'hp.c', 2, 6, 'sc', srcs=src, defines=['MODE=2', 'KSLOTS=1'],
+                        spec={'spin': 1, 'site_types': st, 'pools': [['create_and_push#calloc0', 2, 1, 80]]}, bounds='scan racing with a registration, 1 hazard slot per record', timeout=3600, required=False)
         j += fvm.config('C14', 'hp_scan_vs_register', 'hp.c', 2, 8, 'sc', srcs=src, defines=['MODE=2'],
                     spec={'spin': 1, 'site_types': st, 'pools': [['create_and_push#calloc0', 2, 1, 80]]}, bounds='scan racing with a registration', timeout=3600, required=False)
     return j
